@@ -678,6 +678,21 @@ func workload(c *rt.Ctx) []Case {
 			cs.Name = "cli:" + cs.Name
 			cases = append(cases, cs)
 		}
+		// always through the CLI (its diff options are its own): every edit of the pool whose only
+		// difference is the expression of a named CHECK, a literal default, or an index predicate
+		k := 0
+		for _, x := range all {
+			switch x.e.Kind {
+			case "check.modify.named", "col.default.change", "idx.where.change":
+			default:
+				continue
+			}
+			if x.pe.Name == "all" {
+				continue
+			}
+			add(Case{Pair: sqlm.Pair{A: x.pe.S, B: x.e.Apply(x.pe.S), Mode: modes[k%len(modes)]}, Name: fmt.Sprintf("cli:edit:%s/%s", x.pe.Name, x.e), Src: "edit", CLI: true, Edits: []string{x.e.Kind}})
+			k++
+		}
 		for i, cs := range pkn {
 			if i%6 == 0 {
 				cs.CLI = true
